@@ -19,7 +19,7 @@ const (
 // Mix is the combination of annotations on the subject types of package d.
 type Mix struct {
 	Imm   bool // @immutable on T and N
-	Ctor  int  // 0 none; 1 "@constructor NewT" (and NewN on N); 2 "@constructor NewT, Alt"; 3 two lines "NewT" + "Alt"; 4 "NewT,<TAB>Alt"; 5 "<TAB>NewT ,Alt," (blanks other than one space around the commas, trailing comma)
+	Ctor  int  // 0 none; 1 "@constructor NewT" (and NewN on N); 2 "@constructor NewT, Alt"; 3 two lines "NewT" + "Alt"; 4 "NewT,<TAB>Alt"; 5 "<TAB>NewT ,Alt," (blanks other than one space around the commas, trailing comma); 6 "NewT, Alt, Créer" and 7 "Créer, NewT, Alt" (a name with a non-ASCII letter, last / first; d declares func Créer)
 	Mut   bool // @mutable on T.M and T.Ms
 	Extra int  // 0 none; 1 prose lines around and annotations in reverse order; 2 type inside a grouped type(...) declaration
 	PreludeLast bool // type declarations after the blocks of file a.go
@@ -36,6 +36,8 @@ func (m Mix) CtorNames() []string {
 		return []string{"NewT"}
 	case 2, 3, 4, 5:
 		return []string{"NewT", "Alt"}
+	case 6, 7:
+		return []string{"NewT", "Alt", "Créer"}
 	}
 	return nil
 }
@@ -52,9 +54,10 @@ const (
 	SpPtrAlias                 // type APT = *d.T used where a pointer is written
 	SpDotImport                // import . "ex.com/m/d"; T   (importing packages of the use universe only)
 	SpBodyAlias                // type BMock = d.Mock declared INSIDE each function body that uses it (use universe only)
+	SpMixedAlias               // local aliases as under SpLocalAlias, but every second statement names the type directly: two spellings of one type in one file (use universe only)
 )
 
-var SpellNames = []string{"direct", "local-alias", "third-pkg-alias", "renamed-import", "paren", "ptr-alias", "dot-import", "body-alias"}
+var SpellNames = []string{"direct", "local-alias", "third-pkg-alias", "renamed-import", "paren", "ptr-alias", "dot-import", "body-alias", "mixed-alias"}
 
 // EnclKind is the kind of top-level declaration that encloses a group of sites.
 type EnclKind int
@@ -259,6 +262,10 @@ func annLinesT(m Mix) []string {
 		ctor = []string{"// @constructor NewT,\tAlt"}
 	case 5:
 		ctor = []string{"// @constructor\tNewT ,Alt,"}
+	case 6:
+		ctor = []string{"// @constructor NewT, Alt, Créer"}
+	case 7:
+		ctor = []string{"// @constructor Créer, NewT, Alt"}
 	}
 	if m.Extra == 1 {
 		l = append(l, "// T is the subject type; the word @immutable in the middle of a line means nothing.")
@@ -300,7 +307,7 @@ func preludeD(w *lineWriter, m Mix) {
 	body := func(ind string) {
 		w.add(ind + "F  int")
 		mut()
-		w.add(ind + "M  int")
+		w.add(ind + "M  int // counts lookups (an ordinary trailing comment next to the doc comment above)")
 		mut()
 		w.add(ind + "Ms []int")
 		mut()
@@ -381,6 +388,17 @@ func preludeD(w *lineWriter, m Mix) {
 	w.add("\tM int")
 	w.add("}")
 	w.add("")
+	if m.Ctor >= 6 {
+		w.add("// Créer is listed as a constructor of T: what it does is exempt.")
+		w.add("func Créer() *T {")
+		w.add("\tt := &T{}")
+		w.add("\tt.F = 1")
+		w.add("\tvar z T")
+		w.add("\t_ = z")
+		w.add("\treturn t")
+		w.add("}")
+		w.add("")
+	}
 	w.add("func NewGT[V any](v V) *GT[V] {")
 	w.add("\tg := &GT[V]{}")
 	if m.Ctor > 0 {
